@@ -117,6 +117,11 @@ func runC19(c *Ctx) {
 		})
 		w := f.AfterEdgesMayReach(stale, nil, nil, claim)
 		c.Check(w == nil && len(stale) > 0, "stale⇏claim", "a tick older than the claim TTL is skipped before any claim is attempted", c.P.Pos(cf.Decl.Pos()), f.describe(w))
+		fresh := f.FactEdges(func(cm cmp) bool {
+			fv := selField(info, cm.R)
+			return cm.Op == token.LEQ && fv != nil && fv.Name() == "ttl"
+		})
+		c.guardedBy(f, fresh, claim, "claim-only-if-fresh", "a claim is attempted only over the edge on which the tick is not older than the claim TTL", c.P.Pos(cf.Decl.Pos()))
 		// the switch maps ErrScheduleFireClaimed to (false, nil)
 		mapped := false
 		ast.Inspect(cf.Decl.Body, func(n ast.Node) bool {
